@@ -1,9 +1,668 @@
+// C20, operator part — "the operator's deployment of the components is likewise a fixpoint determined only by its
+// configuration". The real ConfigReconciler (all operands, real DeployableOperands.Deploy, real collectables with their
+// field indexes) runs over a controller-runtime fake client. For a generated pair of kai Config specs (A, B):
+//
+//	store 1: empty cluster, Config = B, reconcile to a fixpoint;
+//	store 2: empty cluster, Config = A, reconcile to a fixpoint, Config := B, reconcile to a fixpoint.
+//
+// Oracle: (1) in every store the reconcile after the fixpoint performs zero create / update / patch / delete calls on
+// deployed objects; (2) the deployed object set (kind, namespace, name, labels, spec — generated certificate material
+// normalised) is the same in store 1 and store 2.
 package controllers
 
+import (
+	"context"
+	"encoding/json"
+	"fmt"
+	"sort"
+	"strings"
+	"testing"
+
+	monitoringv1 "github.com/prometheus-operator/prometheus-operator/pkg/apis/monitoring/v1"
+	admissionv1 "k8s.io/api/admissionregistration/v1"
+	appsv1 "k8s.io/api/apps/v1"
+	v1 "k8s.io/api/core/v1"
+	apiextensionsv1 "k8s.io/apiextensions-apiserver/pkg/apis/apiextensions/v1"
+	"k8s.io/apimachinery/pkg/api/meta"
+	"k8s.io/apimachinery/pkg/api/resource"
+	metav1 "k8s.io/apimachinery/pkg/apis/meta/v1"
+	"k8s.io/apimachinery/pkg/runtime"
+	"k8s.io/apimachinery/pkg/runtime/serializer"
+	"k8s.io/apimachinery/pkg/types"
+	clientgoscheme "k8s.io/client-go/kubernetes/scheme"
+	clienttesting "k8s.io/client-go/testing"
+	"k8s.io/utils/ptr"
+	ctrl "sigs.k8s.io/controller-runtime"
+	"sigs.k8s.io/controller-runtime/pkg/client"
+	"sigs.k8s.io/controller-runtime/pkg/client/apiutil"
+	"sigs.k8s.io/controller-runtime/pkg/client/fake"
+	"sigs.k8s.io/controller-runtime/pkg/client/interceptor"
+
+	nvidiav1 "github.com/NVIDIA/gpu-operator/api/nvidia/v1"
+	"pgregory.net/rapid"
+
+	kaiv1 "github.com/NVIDIA/KAI-scheduler/pkg/apis/kai/v1"
+	kaiadmission "github.com/NVIDIA/KAI-scheduler/pkg/apis/kai/v1/admission"
+	kaibinder "github.com/NVIDIA/KAI-scheduler/pkg/apis/kai/v1/binder"
+	kaicommon "github.com/NVIDIA/KAI-scheduler/pkg/apis/kai/v1/common"
+	kainsa "github.com/NVIDIA/KAI-scheduler/pkg/apis/kai/v1/node_scale_adjuster"
+	kaipgc "github.com/NVIDIA/KAI-scheduler/pkg/apis/kai/v1/pod_group_controller"
+	kaipodgrouper "github.com/NVIDIA/KAI-scheduler/pkg/apis/kai/v1/pod_grouper"
+	kaiqc "github.com/NVIDIA/KAI-scheduler/pkg/apis/kai/v1/queue_controller"
+	kaischeduler "github.com/NVIDIA/KAI-scheduler/pkg/apis/kai/v1/scheduler"
+	opcontroller "github.com/NVIDIA/KAI-scheduler/pkg/operator/controller"
+	"github.com/NVIDIA/KAI-scheduler/pkg/operator/operands"
+	opadmission "github.com/NVIDIA/KAI-scheduler/pkg/operator/operands/admission"
+	opbinder "github.com/NVIDIA/KAI-scheduler/pkg/operator/operands/binder"
+	"github.com/NVIDIA/KAI-scheduler/pkg/operator/operands/known_types"
+	opnsa "github.com/NVIDIA/KAI-scheduler/pkg/operator/operands/node_scale_adjuster"
+	oppgc "github.com/NVIDIA/KAI-scheduler/pkg/operator/operands/pod_group_controller"
+	oppodgrouper "github.com/NVIDIA/KAI-scheduler/pkg/operator/operands/pod_grouper"
+	opprometheus "github.com/NVIDIA/KAI-scheduler/pkg/operator/operands/prometheus"
+	opqc "github.com/NVIDIA/KAI-scheduler/pkg/operator/operands/queue_controller"
+	opscheduler "github.com/NVIDIA/KAI-scheduler/pkg/operator/operands/scheduler"
+	kit "github.com/NVIDIA/KAI-scheduler/zz_verif/verifkit"
+)
+
 type c20OpCase struct {
-	Configs []map[string]any `json:"configs"`
+	Configs []kaiv1.ConfigSpec `json:"configs"` // [A, B]
+	// QueueCRD: the queues.scheduling.run.ai CRD exists in the cluster (with a conversion stanza the operator strips)
+	QueueCRD bool `json:"queueCRD,omitempty"`
 }
 
-type c20OpFacts struct{}
+type c20OpFacts struct {
+	differ       bool
+	objects      int
+	disabled     int
+	nsChange     bool
+	reconcileErr bool
+}
 
-func c20OpJudge(c *c20OpCase) (sig, msg string, f c20OpFacts, trace []string) { return "", "", f, nil }
+var c20OpScheme = func() *runtime.Scheme {
+	s := runtime.NewScheme()
+	for _, f := range []func(*runtime.Scheme) error{clientgoscheme.AddToScheme, apiextensionsv1.AddToScheme, kaiv1.AddToScheme,
+		nvidiav1.AddToScheme, monitoringv1.AddToScheme} {
+		if err := f(s); err != nil {
+			panic(err)
+		}
+	}
+	return s
+}()
+
+var c20OpDecoder = serializer.NewCodecFactory(c20OpScheme).UniversalDecoder()
+
+type c20OpStore struct {
+	cl     client.WithWatch
+	base   client.WithWatch
+	rec    *opcontroller.ConfigReconciler
+	writes []string
+	log    []string
+}
+
+func c20OpStamp(obj runtime.Object) {
+	if _, ok := obj.(runtime.Unstructured); ok {
+		return
+	}
+	if _, ok := obj.(*metav1.PartialObjectMetadata); ok {
+		return
+	}
+	if gvk, err := apiutil.GVKForObject(obj, c20OpScheme); err == nil {
+		obj.GetObjectKind().SetGroupVersionKind(gvk)
+	}
+}
+
+func c20OpNewStore(c *c20OpCase) *c20OpStore {
+	s := &c20OpStore{}
+	b := fake.NewClientBuilder().WithScheme(c20OpScheme).
+		WithObjectTracker(clienttesting.NewObjectTracker(c20OpScheme, c20OpDecoder)).
+		WithStatusSubresource(&kaiv1.Config{})
+	for _, col := range known_types.KAIConfigRegisteredCollectible {
+		if col.InitWithFakeClientBuilder != nil {
+			col.InitWithFakeClientBuilder(b) // the field indexes the collectables register with the manager
+		}
+	}
+	s.base = b.Build()
+	if c.QueueCRD {
+		crd := &apiextensionsv1.CustomResourceDefinition{
+			TypeMeta:   metav1.TypeMeta{Kind: "CustomResourceDefinition", APIVersion: "apiextensions.k8s.io/v1"},
+			ObjectMeta: metav1.ObjectMeta{Name: "queues.scheduling.run.ai"},
+			Spec: apiextensionsv1.CustomResourceDefinitionSpec{Group: "scheduling.run.ai", Scope: apiextensionsv1.ClusterScoped,
+				Names:      apiextensionsv1.CustomResourceDefinitionNames{Plural: "queues", Kind: "Queue"},
+				Conversion: &apiextensionsv1.CustomResourceConversion{Strategy: apiextensionsv1.NoneConverter}},
+		}
+		_ = s.base.Create(context.Background(), crd)
+	}
+	note := func(verb string, obj client.Object) {
+		if _, isConfig := obj.(*kaiv1.Config); isConfig {
+			return // the Config's own status conditions are not part of the deployment
+		}
+		s.writes = append(s.writes, fmt.Sprintf("%s %T %s/%s", verb, obj, obj.GetNamespace(), obj.GetName()))
+	}
+	s.cl = interceptor.NewClient(s.base, interceptor.Funcs{
+		Get: func(ctx context.Context, cl client.WithWatch, key client.ObjectKey, obj client.Object, opts ...client.GetOption) error {
+			err := cl.Get(ctx, key, obj, opts...)
+			if err == nil {
+				c20OpStamp(obj) // the manager's cache reader stamps the GVK on typed objects
+			}
+			return err
+		},
+		List: func(ctx context.Context, cl client.WithWatch, list client.ObjectList, opts ...client.ListOption) error {
+			err := cl.List(ctx, list, opts...)
+			if err == nil {
+				_ = meta.EachListItem(list, func(o runtime.Object) error { c20OpStamp(o); return nil })
+			}
+			return err
+		},
+		Create: func(ctx context.Context, cl client.WithWatch, obj client.Object, opts ...client.CreateOption) error {
+			note("create", obj)
+			return cl.Create(ctx, obj, opts...)
+		},
+		Update: func(ctx context.Context, cl client.WithWatch, obj client.Object, opts ...client.UpdateOption) error {
+			if _, isConfig := obj.(*kaiv1.Config); !isConfig {
+				// for the trace: what the operator believes to be different
+				cur := obj.DeepCopyObject().(client.Object)
+				if err := cl.Get(ctx, client.ObjectKeyFromObject(obj), cur); err == nil {
+					c20OpStamp(cur)
+					a, _ := json.Marshal(cur)
+					b, _ := json.Marshal(obj)
+					if string(a) == string(b) {
+						s.log = append(s.log, fmt.Sprintf("  update %T %s: stored and written object serialise identically", obj, obj.GetName()))
+					} else {
+						s.log = append(s.log, fmt.Sprintf("  update %T %s: stored %s  written %s", obj, obj.GetName(), c20Diff(string(a), string(b)), c20Diff(string(b), string(a))))
+					}
+				}
+			}
+			note("update", obj)
+			return cl.Update(ctx, obj, opts...)
+		},
+		Patch: func(ctx context.Context, cl client.WithWatch, obj client.Object, patch client.Patch, opts ...client.PatchOption) error {
+			note("patch", obj)
+			return cl.Patch(ctx, obj, patch, opts...)
+		},
+		Delete: func(ctx context.Context, cl client.WithWatch, obj client.Object, opts ...client.DeleteOption) error {
+			note("delete", obj)
+			return cl.Delete(ctx, obj, opts...)
+		},
+		DeleteAllOf: func(ctx context.Context, cl client.WithWatch, obj client.Object, opts ...client.DeleteAllOfOption) error {
+			note("deleteAllOf", obj)
+			return cl.DeleteAllOf(ctx, obj, opts...)
+		},
+	})
+	ops := []operands.Operand{&oppodgrouper.PodGrouper{}, &opbinder.Binder{}, &opqc.QueueController{}, &oppgc.PodGroupController{},
+		&opnsa.NodeScaleAdjuster{}, &opadmission.Admission{}, &opprometheus.Prometheus{}, &opscheduler.SchedulerForConfig{}}
+	s.rec = opcontroller.VerifNewConfigReconciler(s.cl, c20OpScheme, ops)
+	return s
+}
+
+func (s *c20OpStore) setConfig(spec *kaiv1.ConfigSpec) error {
+	ctx := context.Background()
+	cur := &kaiv1.Config{}
+	err := s.base.Get(ctx, types.NamespacedName{Name: known_types.SingletonInstanceName}, cur)
+	if err != nil {
+		cfg := &kaiv1.Config{TypeMeta: metav1.TypeMeta{Kind: "Config", APIVersion: kaiv1.GroupVersion.String()},
+			ObjectMeta: metav1.ObjectMeta{Name: known_types.SingletonInstanceName, UID: "uid-kai-config", Generation: 1}, Spec: *spec.DeepCopy()}
+		return s.base.Create(ctx, cfg)
+	}
+	cur.Spec = *spec.DeepCopy()
+	cur.Generation++
+	return s.base.Update(ctx, cur)
+}
+
+// reconcile runs one Reconcile of the Config and returns the mutating calls on deployed objects.
+func (s *c20OpStore) reconcile() (writes []string, err error, panicMsg string) {
+	w0 := len(s.writes)
+	func() {
+		defer func() {
+			if x := recover(); x != nil {
+				panicMsg = fmt.Sprint(x)
+			}
+		}()
+		_, err = s.rec.Reconcile(context.Background(), ctrl.Request{NamespacedName: types.NamespacedName{Name: known_types.SingletonInstanceName}})
+	}()
+	writes = append([]string(nil), s.writes[w0:]...)
+	s.log = append(s.log, fmt.Sprintf("reconcile: %d writes %v err=%v", len(writes), c20Head(writes, 12), err))
+	return
+}
+
+func c20Head(s []string, n int) []string {
+	if len(s) > n {
+		return append(append([]string(nil), s[:n]...), "...")
+	}
+	return s
+}
+
+// settle reconciles until a reconcile writes nothing (at most 4 times) and then once more: that one must write nothing.
+func (s *c20OpStore) settle(what string) (sig, msg string, hadErr bool) {
+	for i := 0; i < 4; i++ {
+		w, err, pm := s.reconcile()
+		if pm != "" {
+			return "operator-panic", what + ": Reconcile panicked: " + pm, false
+		}
+		if err != nil {
+			return "", "", true
+		}
+		if len(w) == 0 {
+			break
+		}
+	}
+	w, err, pm := s.reconcile()
+	if pm != "" {
+		return "operator-panic", what + ": Reconcile panicked: " + pm, false
+	}
+	if err != nil {
+		return "", "", true
+	}
+	if len(w) > 0 {
+		return "operator-not-a-fixpoint", fmt.Sprintf("%s: reconciling the unchanged Config again still issues %d mutating call(s) on deployed objects (after up to 5 reconciles): %v", what, len(w), c20Head(w, 8)), false
+	}
+	return "", "", false
+}
+
+// dump lists every kind the operator manages, normalised.
+func (s *c20OpStore) dump() map[string]string {
+	out := map[string]string{}
+	ctx := context.Background()
+	lists := []client.ObjectList{&appsv1.DeploymentList{}, &appsv1.DaemonSetList{}, &v1.ServiceAccountList{}, &v1.ConfigMapList{}, &v1.ServiceList{},
+		&v1.SecretList{}, &admissionv1.MutatingWebhookConfigurationList{}, &admissionv1.ValidatingWebhookConfigurationList{},
+		&monitoringv1.PrometheusList{}, &monitoringv1.ServiceMonitorList{}}
+	// (the queues CRD is pre-existing cluster state that the operator only edits in place — conversion stanza — and never
+	// owns; it is not part of the deployed object set)
+	for _, l := range lists {
+		if err := s.base.List(ctx, l); err != nil {
+			out["ERR "+fmt.Sprintf("%T", l)] = err.Error()
+			continue
+		}
+		_ = meta.EachListItem(l, func(o runtime.Object) error {
+			obj := o.(client.Object)
+			key := fmt.Sprintf("%T %s/%s", obj, obj.GetNamespace(), obj.GetName())
+			out[key] = c20OpNormalise(obj)
+			return nil
+		})
+	}
+	return out
+}
+
+func c20OpNormalise(obj client.Object) string {
+	o := obj.DeepCopyObject().(client.Object)
+	o.SetResourceVersion("")
+	o.SetManagedFields(nil)
+	o.SetCreationTimestamp(metav1.Time{})
+	o.SetGeneration(0)
+	o.SetUID("")
+	switch t := o.(type) {
+	case *v1.Secret:
+		// generated certificate material: only the key set is determined by the configuration
+		for k := range t.Data {
+			t.Data[k] = []byte("<generated>")
+		}
+	case *admissionv1.ValidatingWebhookConfiguration:
+		for i := range t.Webhooks {
+			if len(t.Webhooks[i].ClientConfig.CABundle) > 0 {
+				t.Webhooks[i].ClientConfig.CABundle = []byte("<ca>")
+			}
+		}
+	case *admissionv1.MutatingWebhookConfiguration:
+		for i := range t.Webhooks {
+			if len(t.Webhooks[i].ClientConfig.CABundle) > 0 {
+				t.Webhooks[i].ClientConfig.CABundle = []byte("<ca>")
+			}
+		}
+	}
+	b, _ := json.Marshal(o)
+	return string(b)
+}
+
+func c20OpJudge(c *c20OpCase) (sig, msg string, f c20OpFacts, trace []string) {
+	if len(c.Configs) != 2 {
+		return "harness-error", "need two configs", f, nil
+	}
+	a, b := &c.Configs[0], &c.Configs[1]
+	ja, _ := json.Marshal(a)
+	jb, _ := json.Marshal(b)
+	f.differ = string(ja) != string(jb)
+	f.nsChange = a.Namespace != b.Namespace
+
+	// store 1: B from an empty cluster
+	s1 := c20OpNewStore(c)
+	fail := func(sg, m string) (string, string, c20OpFacts, []string) {
+		return sg, m, f, trace
+	}
+	if err := s1.setConfig(b); err != nil {
+		return fail("harness-error", err.Error())
+	}
+	sg, m, hadErr := s1.settle("config B deployed into an empty cluster")
+	trace = append(trace, "store 1 (B from empty):")
+	trace = append(trace, s1.log...)
+	if sg != "" {
+		return fail(sg, m)
+	}
+	if hadErr {
+		f.reconcileErr = true
+		return fail("", "")
+	}
+	d1 := s1.dump()
+	f.objects = len(d1)
+
+	// store 2: A, then B
+	s2 := c20OpNewStore(c)
+	if err := s2.setConfig(a); err != nil {
+		return fail("harness-error", err.Error())
+	}
+	sg, m, hadErr = s2.settle("config A deployed into an empty cluster")
+	if sg == "" && !hadErr {
+		if err := s2.setConfig(b); err != nil {
+			return fail("harness-error", err.Error())
+		}
+		s2.log = append(s2.log, "-- Config changed from A to B --")
+		sg, m, hadErr = s2.settle("config B deployed over the objects left by config A")
+	}
+	trace = append(trace, "store 2 (A, then B):")
+	trace = append(trace, s2.log...)
+	if sg != "" {
+		return fail(sg, m)
+	}
+	if hadErr {
+		f.reconcileErr = true
+		return fail("", "")
+	}
+	d2 := s2.dump()
+	keys := map[string]bool{}
+	for k := range d1 {
+		keys[k] = true
+	}
+	for k := range d2 {
+		keys[k] = true
+	}
+	ks := make([]string, 0, len(keys))
+	for k := range keys {
+		ks = append(ks, k)
+	}
+	sort.Strings(ks)
+	for _, k := range ks {
+		x, ok1 := d1[k]
+		y, ok2 := d2[k]
+		switch {
+		case !ok1:
+			return fail("operator-leftover-object", fmt.Sprintf("deploying config B over the objects of config A leaves %s, which deploying B into an empty cluster does not create", k))
+		case !ok2:
+			return fail("operator-missing-object", fmt.Sprintf("deploying config B over the objects of config A lacks %s, which deploying B into an empty cluster creates", k))
+		case x != y:
+			return fail("operator-history-dependent-object", fmt.Sprintf("%s differs depending on the previous configuration: from empty %s  VS  after config A %s", k, c20Diff(x, y), c20Diff(y, x)))
+		}
+	}
+	return fail("", "")
+}
+
+// c20Diff returns a window of a around the first difference with b.
+func c20Diff(a, b string) string {
+	i := 0
+	for i < len(a) && i < len(b) && a[i] == b[i] {
+		i++
+	}
+	lo := i - 120
+	if lo < 0 {
+		lo = 0
+	}
+	hi := i + 200
+	if hi > len(a) {
+		hi = len(a)
+	}
+	return "…" + a[lo:hi] + "…"
+}
+
+// ---------------------------------------------------------------------------------------------
+// generator
+
+type c20OpG struct {
+	c20G
+	// additionalImagePullSecrets is drawn once per case: the operator deliberately keeps pull secrets it finds on existing
+	// ServiceAccounts (union with the configured ones), so a change of this list between A and B is history dependent by design
+	pullSecrets []string
+}
+
+func (g *c20OpG) optI32(label string, vals ...int32) *int32 {
+	if g.chance(5, label+"Set") {
+		return ptr.To(vals[g.u(len(vals), label)])
+	}
+	return nil
+}
+func (g *c20OpG) optInt(label string, vals ...int) *int {
+	if g.chance(4, label+"Set") {
+		return ptr.To(vals[g.u(len(vals), label)])
+	}
+	return nil
+}
+func (g *c20OpG) optS(label string, vals ...string) *string {
+	if g.chance(4, label+"Set") {
+		return ptr.To(vals[g.u(len(vals), label)])
+	}
+	return nil
+}
+func (g *c20OpG) optB(label string, pSet int) *bool {
+	if g.chance(pSet, label+"Set") {
+		return ptr.To(g.chance(5, label))
+	}
+	return nil
+}
+
+func (g *c20OpG) service(label string, pDisabled int) *kaicommon.Service {
+	if g.chance(3, label+"SvcNil") {
+		return nil
+	}
+	s := &kaicommon.Service{}
+	if g.chance(pDisabled, label+"Disabled") {
+		s.Enabled = ptr.To(false)
+	} else if g.chance(3, label+"EnabledExplicit") {
+		s.Enabled = ptr.To(true)
+	}
+	if g.chance(4, label+"Image") {
+		s.Image = &kaicommon.Image{Repository: g.optS(label+"Repo", "registry.local/kai", "ghcr.io/nvidia"), Tag: g.optS(label+"Tag", "v0.9.0", "v1.0.0"),
+			Name: g.optS(label+"ImgName", "custom-image")}
+		if g.chance(3, label+"PullPolicy") {
+			s.Image.PullPolicy = ptr.To(v1.PullAlways)
+		}
+	}
+	if g.chance(3, label+"Resources") {
+		s.Resources = &kaicommon.Resources{Requests: v1.ResourceList{v1.ResourceCPU: resource.MustParse(g.pick(label+"CPU", "75m", "200m"))}}
+		if g.chance(5, label+"Limits") {
+			s.Resources.Limits = v1.ResourceList{v1.ResourceMemory: resource.MustParse(g.pick(label+"Mem", "300Mi", "1Gi"))}
+		}
+	}
+	if g.chance(2, label+"ClientCfg") {
+		s.K8sClientConfig = &kaicommon.K8sClientConfig{QPS: g.optInt(label+"QPS", 20, 100), Burst: g.optInt(label+"Burst", 50, 400)}
+	}
+	return s
+}
+
+func (g *c20OpG) selector(label string) map[string]string {
+	switch g.u(6, label) {
+	case 0, 1, 2:
+		return nil
+	case 3:
+		return map[string]string{"team": "a"}
+	case 4:
+		return map[string]string{"env": "prod"}
+	default:
+		return map[string]string{"team": "a", "env": "prod"}
+	}
+}
+
+func (g *c20OpG) config() kaiv1.ConfigSpec {
+	var c kaiv1.ConfigSpec
+	if g.chance(3, "ns") {
+		c.Namespace = g.pick("nsV", "kai-alt", "kai-scheduler")
+	}
+	if g.chance(6, "global") || len(g.pullSecrets) > 0 {
+		gl := &kaiv1.GlobalConfig{ReplicaCount: g.optI32("replicaCount", 1, 2, 3), Openshift: g.optB("openshift", 2),
+			SchedulerName: g.optS("schedulerName", "kai-scheduler", "alt-scheduler"), QueueLabelKey: g.optS("queueLabelKey", "kai.scheduler/queue", "runai/queue"),
+			NodePoolLabelKey: g.optS("nodePoolLabelKey", "kai.scheduler/node-pool", "pool"), RequireDefaultPodAntiAffinityTerm: g.optB("requireAntiAffinity", 2)}
+		if g.chance(3, "nodeSelector") {
+			gl.NodeSelector = map[string]string{"node-role": g.pick("nodeSelectorV", "system", "infra")}
+		}
+		if g.chance(2, "tolerations") {
+			gl.Tolerations = []v1.Toleration{{Key: "dedicated", Operator: v1.TolerationOpEqual, Value: "kai", Effect: v1.TaintEffectNoSchedule}}
+		}
+		gl.ImagePullSecrets = g.pullSecrets
+		if g.chance(2, "affinity") {
+			gl.Affinity = &v1.Affinity{NodeAffinity: &v1.NodeAffinity{RequiredDuringSchedulingIgnoredDuringExecution: &v1.NodeSelector{NodeSelectorTerms: []v1.NodeSelectorTerm{
+				{MatchExpressions: []v1.NodeSelectorRequirement{{Key: "zone", Operator: v1.NodeSelectorOpIn, Values: []string{"z1"}}}}}}}}
+		}
+		gl.NamespaceLabelSelector = g.selector("nsSelector")
+		gl.PodLabelSelector = g.selector("podSelector")
+		c.Global = gl
+	}
+	if g.chance(7, "podGrouper") {
+		c.PodGrouper = &kaipodgrouper.PodGrouper{Service: g.service("podGrouper", 2), Replicas: g.optI32("pgReplicas", 1, 2), MaxConcurrentReconciles: g.optInt("pgMaxConc", 5, 20)}
+		if g.chance(4, "pgArgs") {
+			c.PodGrouper.Args = &kaipodgrouper.Args{GangScheduleKnative: g.optB("gangKnative", 6)}
+			if g.chance(3, "pgDefaultsCM") {
+				c.PodGrouper.Args.DefaultPrioritiesConfigMapName = ptr.To("kai-defaults")
+				c.PodGrouper.Args.DefaultPrioritiesConfigMapNamespace = ptr.To("kai-scheduler")
+			}
+		}
+		if g.chance(2, "pgClientCfg") {
+			c.PodGrouper.K8sClientConfig = &kaicommon.K8sClientConfig{QPS: g.optInt("pgQPS", 30, 80), Burst: g.optInt("pgBurst", 100, 300)}
+		}
+	}
+	if g.chance(7, "binder") {
+		c.Binder = &kaibinder.Binder{Service: g.service("binder", 2), Replicas: g.optI32("binderReplicas", 1, 2), MaxConcurrentReconciles: g.optInt("binderMaxConc", 5, 10),
+			VolumeBindingTimeoutSeconds: g.optInt("binderVolTimeout", 60, 120), CDIEnabled: g.optB("cdi", 3), ProbePort: g.optInt("binderProbePort", 8081, 9081), MetricsPort: g.optInt("binderMetricsPort", 8080, 9080)}
+		if g.chance(3, "resourceReservation") {
+			c.Binder.ResourceReservation = &kaibinder.ResourceReservation{Namespace: g.optS("rrNamespace", "kai-resource-reservation", "rr-alt"), AllocationTimeout: g.optInt("rrTimeout", 40, 90),
+				RuntimeClassName: g.optS("rrRuntimeClass", "nvidia", ""), AppLabel: g.optS("rrAppLabel", "kai-resource-reservation", "rr")}
+		}
+	}
+	if g.chance(7, "queueController") {
+		c.QueueController = &kaiqc.QueueController{Service: g.service("qc", 2), Replicas: g.optI32("qcReplicas", 1, 2), MetricsNamespace: g.optS("qcMetricsNs", "kai", "custom"),
+			QueueLabelToMetricLabel: g.optS("qcLabelMap", "priority=queue_priority"), QueueLabelToDefaultMetricValue: g.optS("qcLabelDefault", "priority=normal")}
+		if g.chance(3, "qcWebhooks") {
+			c.QueueController.Webhooks = &kaiqc.QueueControllerWebhooks{EnableValidation: g.optB("qcValidation", 7), WebhookConfigurationNamePrefix: g.optS("qcPrefix", "kai-queue-validation-", "alt-queue-validation-")}
+		}
+		if g.chance(2, "qcPorts") {
+			c.QueueController.ControllerService = &kaiqc.Service{Metrics: &kaiqc.PortMapping{Port: g.optInt("qcMetricsPort", 8080, 9090)}, Webhook: &kaiqc.PortMapping{Port: g.optInt("qcWebhookPort", 443, 8443)}}
+		}
+	}
+	if g.chance(7, "podGroupController") {
+		c.PodGroupController = &kaipgc.PodGroupController{Service: g.service("pgc", 2), Replicas: g.optI32("pgcReplicas", 1, 2), MaxConcurrentReconciles: g.optInt("pgcMaxConc", 5, 10)}
+		if g.chance(3, "pgcWebhooks") {
+			c.PodGroupController.Webhooks = &kaipgc.PodGroupControllerWebhooks{EnableValidation: g.optB("pgcValidation", 7), WebhookConfigurationNamePrefix: g.optS("pgcPrefix", "kai-podgroup-validation-", "alt-podgroup-validation-")}
+		}
+	}
+	if g.chance(6, "admission") {
+		c.Admission = &kaiadmission.Admission{Service: g.service("admission", 2), Replicas: g.optI32("admReplicas", 1, 2), GPUSharing: g.optB("gpuSharing", 6), QueueLabelSelector: g.optB("queueLabelSelector", 3),
+			ValidatingWebhookConfigurationName: g.optS("admValidatingName", "validating-kai-admission", "alt-validating"), MutatingWebhookConfigurationName: g.optS("admMutatingName", "mutating-kai-admission", "alt-mutating"),
+			GPUPodRuntimeClassName: g.optS("gpuRuntimeClass", "nvidia", "")}
+		if g.chance(2, "admWebhook") {
+			c.Admission.Webhook = &kaiadmission.Webhook{Port: g.optInt("admPort", 443, 8443), TargetPort: g.optInt("admTargetPort", 9443, 10443), ProbePort: g.optInt("admProbePort", 8081), MetricsPort: g.optInt("admMetricsPort", 8080)}
+		}
+	}
+	if g.chance(6, "scheduler") {
+		c.Scheduler = &kaischeduler.Scheduler{Service: g.service("scheduler", 2), Replicas: g.optI32("schedReplicas", 1, 2), GOGC: g.optInt("gogc", 100, 400)}
+		if g.chance(2, "schedService") {
+			c.Scheduler.SchedulerService = &kaischeduler.Service{Port: g.optInt("schedPort", 8080, 9090), TargetPort: g.optInt("schedTargetPort", 8080, 9090)}
+			if g.chance(3, "schedServiceType") {
+				c.Scheduler.SchedulerService.Type = ptr.To(v1.ServiceTypeNodePort)
+			}
+		}
+	}
+	if g.chance(5, "nodeScaleAdjuster") {
+		c.NodeScaleAdjuster = &kainsa.NodeScaleAdjuster{Service: g.service("nsa", 3)}
+		if g.chance(4, "nsaArgs") {
+			c.NodeScaleAdjuster.Args = &kainsa.Args{NodeScaleNamespace: g.optS("nsaNamespace", "kai-scale-adjust", "scale-alt"), NodeScaleServiceAccount: g.optS("nsaSA", "kai-scale-adjust", "scale-sa")}
+			if g.chance(3, "nsaRatio") {
+				c.NodeScaleAdjuster.Args.GPUMemoryToFractionRatio = ptr.To(0.2)
+			}
+		}
+	}
+	return c
+}
+
+func c20OpGenCase(t *rapid.T) *c20OpCase {
+	g := &c20OpG{c20G: c20G{t: t}}
+	if g.chance(3, "pullSecrets") {
+		g.pullSecrets = []string{g.pick("pullSecretV", "regcred", "other-cred")}
+	}
+	c := &c20OpCase{QueueCRD: g.chance(5, "queueCRD")}
+	a := g.config()
+	var b kaiv1.ConfigSpec
+	if g.chance(2, "sameConfig") {
+		b = *a.DeepCopy()
+	} else {
+		b = g.config()
+	}
+	c.Configs = []kaiv1.ConfigSpec{a, b}
+	return c
+}
+
+func TestCheckOperatorDeploy(t *testing.T) {
+	t.Setenv("MS_REPOSITORY", "registry.local/default")
+	t.Setenv("MS_TAG", "v0.0.0-verif")
+	kit.Run(t, kit.Budget{Quick: 320, Thorough: 4000}, func(t *rapid.T) {
+		c := c20OpGenCase(t)
+		sig, msg, f, trace := c20OpJudge(c)
+		if sig == "harness-error" {
+			kit.Inconclusive()
+			kit.Note("harness-error", 1)
+			t.Fatalf("harness error: %s", msg)
+		}
+		classes := []string{"operator"}
+		add := func(b bool, s string) {
+			if b {
+				classes = append(classes, s)
+			}
+		}
+		add(f.differ, "operator:configs-differ")
+		add(!f.differ, "operator:same-config-twice")
+		add(f.nsChange, "operator:namespace-change")
+		add(f.reconcileErr, "operator:reconcile-error")
+		add(c.QueueCRD, "operator:queue-crd-present")
+		for _, name := range c20OpDisabled(&c.Configs[1]) {
+			classes = append(classes, "operator:B-disables-"+name)
+		}
+		classes = append(classes, fmt.Sprintf("operator:objects:%d", f.objects/5*5))
+		kit.Eval(kit.HexKey(c), f.differ && !f.reconcileErr, classes...)
+		if f.reconcileErr {
+			kit.Note("operator-cases-with-reconcile-errors", 1)
+		}
+		if sig != "" {
+			if kit.Known(c20Prop, sig) {
+				return // listed in known_findings.json: counted by the kit, the search goes on
+			}
+			path := kit.Violation(c20Prop, sig, msg, c, trace)
+			t.Fatalf("VIOLATION %s: %s (%s)", sig, msg, path)
+		}
+	})
+}
+
+func c20OpDisabled(c *kaiv1.ConfigSpec) []string {
+	var out []string
+	chk := func(name string, s *kaicommon.Service) {
+		if s != nil && s.Enabled != nil && !*s.Enabled {
+			out = append(out, name)
+		}
+	}
+	if c.PodGrouper != nil {
+		chk("podgrouper", c.PodGrouper.Service)
+	}
+	if c.Binder != nil {
+		chk("binder", c.Binder.Service)
+	}
+	if c.QueueController != nil {
+		chk("queuecontroller", c.QueueController.Service)
+	}
+	if c.PodGroupController != nil {
+		chk("podgroupcontroller", c.PodGroupController.Service)
+	}
+	if c.Admission != nil {
+		chk("admission", c.Admission.Service)
+	}
+	if c.Scheduler != nil {
+		chk("scheduler", c.Scheduler.Service)
+	}
+	if c.NodeScaleAdjuster != nil {
+		chk("nodescaleadjuster", c.NodeScaleAdjuster.Service)
+	}
+	return out
+}
+
+var _ = strings.Join
